@@ -452,7 +452,10 @@ func (t *Tree) DoBounded(b *Bounding, fn Operation) bool {
 }
 
 func (n *Node) doBounded(fn Operation, b *Bounding, depth int) (done bool) {
-	if n.Left != nil && b.Min.Compare(n.Point, n.Plane) < 0 {
+	// Values equal to n.Point on the splitting plane are stored in the
+	// left subtree, so it must be searched when the minimum face of b
+	// coincides with the plane.
+	if n.Left != nil && b.Min.Compare(n.Point, n.Plane) <= 0 {
 		done = n.Left.doBounded(fn, b, depth+1)
 		if done {
 			return
@@ -464,7 +467,9 @@ func (n *Node) doBounded(fn Operation, b *Bounding, depth int) (done bool) {
 			return
 		}
 	}
-	if n.Right != nil && 0 < b.Max.Compare(n.Point, n.Plane) {
+	// A user-provided Pivot may leave values equal to n.Point on the
+	// splitting plane in the right subtree.
+	if n.Right != nil && 0 <= b.Max.Compare(n.Point, n.Plane) {
 		done = n.Right.doBounded(fn, b, depth+1)
 	}
 	return
